@@ -7,11 +7,13 @@ package main
 //     <enter/exit/abort events> | <what the client's http.ResponseWriter received> | esc=<recovered panic kind>
 
 import (
+	"bufio"
 	gocontext "context"
 	"errors"
 	"fmt"
 	"io"
 	"math/rand"
+	"net"
 	"net/http"
 	"net/http/httptest"
 	"runtime"
@@ -47,6 +49,24 @@ type chainErr struct{}
 
 func (chainErr) Error() string { return "chain error value" }
 
+type chainPtrErr struct{ msg string }
+
+func (e *chainPtrErr) Error() string { return e.msg }
+
+type chainBadStringer struct{}
+
+func (chainBadStringer) String() string { panic("String() of the panic value panics") }
+
+// xReader yields 'x' bytes for ever (no WriterTo: io.Copy has to push it through the destination)
+type xReader struct{}
+
+func (xReader) Read(p []byte) (int, error) {
+	for i := range p {
+		p[i] = 'x'
+	}
+	return len(p), nil
+}
+
 // an UNHASHABLE value (it holds a slice): recovering code must not use a panic value as a map key or compare it
 type chainStruct struct {
 	A, B  int
@@ -71,7 +91,7 @@ func parseChainHandler(l []string) (chainHandler, bool) {
 				return h, false
 			}
 			switch a[0] {
-			case 'n', 'c', 'm', 'h':
+			case 'n', 'c', 'm', 'h', 'j':
 				if len(a) != 1 {
 					return h, false
 				}
@@ -128,7 +148,26 @@ func (h *chainHandler) interpret(i int, cur **chainRun, c flamego.Context) {
 		case 'w':
 			c.ResponseWriter().WriteHeader(a.n)
 		case 'b':
-			_, _ = c.ResponseWriter().Write([]byte(strings.Repeat("x", a.n)))
+			// the same bytes through the different ways Go code writes a body (the client's writer underneath
+			// offers io.ReaderFrom like net/http's own, so io.Copy may be tempted to bypass Write)
+			switch {
+			case a.n > 0 && (i+a.n)%3 == 1:
+				_, _ = io.WriteString(c.ResponseWriter(), strings.Repeat("x", a.n))
+			case a.n > 0 && (i+a.n)%3 == 2:
+				_, _ = io.Copy(c.ResponseWriter(), io.LimitReader(xReader{}, int64(a.n)))
+			default:
+				_, _ = c.ResponseWriter().Write([]byte(strings.Repeat("x", a.n)))
+			}
+		case 'j':
+			// a failed take-over of the connection (the client's writer refuses): nothing has been sent
+			if hj, ok := c.ResponseWriter().(http.Hijacker); ok {
+				if conn, _, err := hj.Hijack(); err == nil && conn != nil {
+					_ = conn.Close()
+				}
+			}
+			if ps, ok := c.ResponseWriter().(http.Pusher); ok {
+				_ = ps.Push("/pushed", nil)
+			}
 		case 'n':
 			c.Next()
 		case 'c':
@@ -158,6 +197,15 @@ func (h *chainHandler) interpret(i int, cur **chainRun, c flamego.Context) {
 				}
 				panic("a string value")
 			case 'E':
+				switch i % 3 {
+				case 1:
+					// the classic typed-nil error: non-nil as an interface, its Error method dereferences nil
+					var e *chainPtrErr
+					var err error = e
+					panic(err)
+				case 2:
+					panic(chainBadStringer{}) // a value whose String method itself panics
+				}
 				panic(chainErr{})
 			case 'R':
 				var m map[string]int
@@ -223,6 +271,22 @@ func (s *chainSpy) Write(b []byte) (int, error) {
 	return s.ResponseRecorder.Write(b)
 }
 
+// like net/http's *response: offers io.ReaderFrom (everything still goes through Write here) …
+func (s *chainSpy) ReadFrom(r io.Reader) (int64, error) {
+	b, err := io.ReadAll(r)
+	if len(b) > 0 {
+		_, _ = s.Write(b)
+	}
+	return int64(len(b)), err
+}
+
+// … and http.Hijacker / http.Pusher, which this client refuses
+func (s *chainSpy) Hijack() (net.Conn, *bufio.ReadWriter, error) {
+	return nil, nil, fmt.Errorf("hijack refused")
+}
+
+func (s *chainSpy) Push(string, *http.PushOptions) error { return http.ErrNotSupported }
+
 func classifyPanic(r interface{}) string {
 	switch v := r.(type) {
 	case nil:
@@ -239,7 +303,7 @@ func classifyPanic(r interface{}) string {
 		return "otherstring"
 	case chainStruct:
 		return "struct"
-	case chainErr:
+	case chainErr, *chainPtrErr, chainBadStringer:
 		return "err"
 	case runtime.Error:
 		return "rt"
@@ -457,7 +521,7 @@ var chainMethodCycle = []string{"GET", "HEAD", "GET", "POST", "HEAD"}
 
 var chainPoolC15 = []string{
 	"p - -", "p n -", "p n,n -", "p w201,n -", "p n,b2 -", "p pS -", "p b1,pR -", "p n,pE -",
-	"p c,pT -", "p - W404:0", "u", "p pA -",
+	"p c,pT -", "p - W404:0", "u", "p pA -", "p j,pE -",
 }
 
 var chainCodes = []int{200, 201, 204, 302, 404, 500}
@@ -476,8 +540,10 @@ func randChainProg(r *rand.Rand, hooks bool, panicky bool) string {
 			acts = append(acts, fmt.Sprintf("b%d", r.Intn(4)))
 		case k < 62:
 			acts = append(acts, "c")
-		case k < 68:
+		case k < 66:
 			acts = append(acts, "m")
+		case k < 68:
+			acts = append(acts, "j")
 		case k < 68+map[bool]int{false: 8, true: 22}[panicky]:
 			acts = append(acts, "p"+string("SERTA"[r.Intn(5)]))
 		default:
